@@ -78,10 +78,15 @@ func step(w *cah.World, rec *recorder, c M, beh int) {
 	switch c["t"] {
 	case "sign":
 		res, err = w.Sign(c)
-	case "rotate":
-		res, err = w.Reconfigure(true, c["race"] == true)
-	case "reconfig":
-		res, err = w.Reconfigure(false, c["race"] == true)
+	case "rotate", "reconfig":
+		// defaults are written into the recorded command so that the trace is self-describing
+		if _, ok := c["race"].(bool); !ok {
+			c["race"] = false
+		}
+		if _, ok := c["to"].(string); !ok {
+			c["to"] = "fresh"
+		}
+		res, err = w.Reconfigure(c["t"] == "rotate", c["to"].(string), c["race"] == true)
 	default:
 		res, err = w.Raw(c)
 	}
@@ -436,9 +441,9 @@ func random(profile string, seed int64, n, length int, out string) {
 				c = g.rootsCmd(idx)
 			} else {
 				switch x := g.r.Intn(100); {
-				case x < 4:
-					c = M{"t": "rotate", "race": g.r.Intn(2) == 0}
-				case x < 8:
+				case x < 7:
+					c = M{"t": "rotate", "race": g.r.Intn(2) == 0, "to": g.pick([]string{"fresh", "fresh", "A", "A", "B", "B", "C"})}
+				case x < 10:
 					c = M{"t": "reconfig", "race": g.r.Intn(2) == 0}
 				default:
 					c = g.signCmd()
